@@ -13,7 +13,6 @@ import (
 	"strings"
 	"sync/atomic"
 
-	"github.com/gobwas/glob"
 
 	"github.com/fabiolb/fabio/metrics"
 )
@@ -166,7 +165,7 @@ func (t Table) addRoute(d *RouteDef) error {
 	switch {
 	// add new host
 	case t[host] == nil:
-		g, err := glob.Compile(path)
+		g, err := compileGlob(path)
 		if err != nil {
 			return err
 		}
@@ -176,7 +175,7 @@ func (t Table) addRoute(d *RouteDef) error {
 
 	// add new route to existing host
 	case t[host].find(path) == nil:
-		g, err := glob.Compile(path)
+		g, err := compileGlob(path)
 		if err != nil {
 			return err
 		}
